@@ -30,6 +30,7 @@ import lena.structures
 import lena.structures.elements as struct_elements_mod
 import lena.structures.split_into_bins as sib_mod
 import lena.variables
+import collections
 
 from ..kernel import RunResult, summarize, exception_origin, exception_site
 from ..seams.fs import SimFS, SimOS, Clock
@@ -92,6 +93,23 @@ class Foreign(object):
         self.payload = {"n": n}
 
 
+class WriteProp(object):
+    """a foreign object that opens its output file lazily, when its `write` attribute is first
+    asked for (a property): an element that was told not to write it has no business asking"""
+
+    def __init__(self, fs, n):
+        self._fs = fs
+        self.n = n
+
+    @property
+    def write(self):
+        fs = self._fs
+        if "/sim/lazy" not in fs.dirs:
+            fs.makedirs("/sim/lazy")
+        f = fs.open("/sim/lazy/sink%d" % self.n, "w")
+        return lambda filepath: f.close()
+
+
 class Writable(object):
     """object with a write(path) method (selected by Write)"""
 
@@ -150,7 +168,7 @@ def canon(x, depth=0, fs=None):
         return ("bytes", x.decode("latin-1"))
     if isinstance(x, OneShot):
         return ("oneshot", tuple(x.items), x.taken)
-    if isinstance(x, (Foreign, Writable)):
+    if isinstance(x, (Foreign, Writable, WriteProp)):
         d = dict((k, v) for k, v in x.__dict__.items() if not k.startswith("_"))
         return ("obj", type(x).__name__, canon(d, depth + 1))
     return ("obj", type(x).__name__)
@@ -176,7 +194,8 @@ def a_graph(k=0):
 
 
 COMMON_B = ["int", "float", "tuple", "foreign", "none", "pair-unrelated", "list", "pair-foreign",
-            "iterator", "pair-iterator", "unprintable", "pair-unprintable", "bytes"]
+            "iterator", "pair-iterator", "unprintable", "pair-unprintable", "bytes",
+            "pair-defaultdict-ctx", "pair-defaultdict-output"]
 
 
 
@@ -223,6 +242,11 @@ def common_b(kind, j, fs):
         return (Unprintable(j), {"info": {"j": j}})
     if kind == "bytes":
         return (b"raw bytes %d" % j, {"output": {"filename": "bytes%d" % j}})
+    if kind == "pair-defaultdict-ctx":
+        # a context that is a dictionary subclass with __missing__: looking a key up with [] changes it
+        return (j, collections.defaultdict(dict, {"info": {"j": j}}))
+    if kind == "pair-defaultdict-output":
+        return (j, {"info": {"j": j}, "output": collections.defaultdict(dict)})
     if kind == "iterator":
         return OneShot([j, j + 1])
     if kind == "pair-iterator":
@@ -301,7 +325,8 @@ class EToCSV(El):
 class EWrite(El):
     name = "Write"
     a_kinds = ["str-named", "str-dir", "writable", "str-existing-same", "str-existing-differs"]
-    b_kinds = COMMON_B + ["str-write-false", "writable-write-false", "hist-ctx", "nondict-output"]
+    b_kinds = COMMON_B + ["str-write-false", "writable-write-false", "hist-ctx", "nondict-output",
+                          "write-property-write-false"]
 
     def options(self, tape):
         return {"mode": tape.weighted([(4, "plain"), (1, "existing_unchanged"), (1, "overwrite")], "mode"),
@@ -332,6 +357,8 @@ class EWrite(El):
             return ("not to be written %d" % j, {"output": {"write": False, "filename": "b%d" % j}})
         if kind == "writable-write-false":
             return (Writable(w.fs, "no %d" % j), {"output": {"write": False}})
+        if kind == "write-property-write-false":
+            return (WriteProp(w.fs, j), {"output": {"write": False, "filename": "wp%d" % j}})
         if kind == "hist-ctx":
             return (hist1(j), {"output": {"filename": "h%d" % j}})
         if kind == "nondict-output":
@@ -409,7 +436,8 @@ class ELatex(El):
     multiset = True
     a_kinds = ["tex-new", "tex-pdf-exists-changed", "tex-pdf-exists-unchanged", "tex-pdf-exists-nokey"]
     b_kinds = COMMON_B + ["str", "csv-typed", "pdf-typed", "hist-ctx", "nondict-output",
-                          "filetype-texinfo", "filetype-text", "filetype-TEX", "filetype-latex"]
+                          "filetype-texinfo", "filetype-text", "filetype-TEX", "filetype-latex",
+                          "fileext-tex-no-filetype"]
 
     def options(self, tape):
         return {"overwrite": tape.chance(1, 5, "overwrite")}
@@ -444,6 +472,9 @@ class ELatex(El):
             return (hist1(j), {"output": {"filename": "tex"}})
         if kind == "nondict-output":
             return ("out/b%d.tex" % j, {"output": "tex"})
+        if kind == "fileext-tex-no-filetype":
+            # the extension of a file name is not the type of the data
+            return ("out/b%d.tex" % j, {"output": {"filename": "b%d" % j, "fileext": "tex"}})
         if kind.startswith("filetype-"):
             # file types that merely resemble the selected one
             return ("out/b%d.%s" % (j, kind[9:]), {"output": {"filetype": kind[9:], "changed": True}})
